@@ -66,6 +66,11 @@ def reader_functions(P, G):
     return out
 
 
+def single_def(f, name):
+    defs = [a for a in ast.walk(f.node) if isinstance(a, ast.Assign) and len(a.targets) == 1 and U(a.targets[0]) == name]
+    return defs[0].value if len(defs) == 1 else None
+
+
 def raw_io_calls(f):
     """calls f makes on a handle that move bytes: X.read(n) / X.readall() / X.download_blob(..) / X.seek(o)
     where X is a parameter, self.file or a local bound to one."""
@@ -76,6 +81,11 @@ def raw_io_calls(f):
             if recv in ('self.file', 'file') or recv in f.params or recv.endswith('.file') or \
                     'download_blob' in recv:
                 out.append(n)
+            elif isinstance(n.func.value, ast.Name):
+                # a local bound once to the downloader: d = file.download_blob(..); d.readall()
+                d = single_def(f, n.func.value.id)
+                if d is not None and isinstance(d, ast.Call) and 'download_blob' in U(d.func):
+                    out.append(n)
     return out
 
 
